@@ -462,6 +462,19 @@ func c09Enumerate(tier string, emit explore.Emit) {
 			}
 		}
 	}
+	// values handed over as Go strings for non-text columns (fine for text-format clients): whatever format the
+	// client asked for, the row is either refused or arrives decodable in the announced format
+	for _, bin := range []bool{false, true} {
+		for _, sv := range []struct {
+			t     string
+			oid   uint32
+			v     any
+			canon string
+		}{{"int4", 23, "1234", "int:1234"}, {"int8", 20, "12345678", "int:12345678"}, {"int2", 21, "7", "int:7"}, {"bool", 16, "true", "bool:true"}, {"float8", 701, "1.5", "float64:3ff8000000000000"},
+			{"int4", 23, []byte("1234"), "int:1234"}, {"int8", 20, pgtype.Text{String: "99", Valid: true}, "int:99"}} {
+			add([]c09Cell{{sv.t, sv.oid, fmt.Sprintf("%T holding text", sv.v), sv.v, sv.canon}}, bin, 1)
+		}
+	}
 	// two portals bound with different result formats before either is executed
 	for _, v := range vals {
 		if v.Type != "int4" && v.Type != "int8" && v.Type != "bool" && v.Type != "float8" {
